@@ -1,6 +1,6 @@
 """C15 — subclass registries are independent and the reader honours configured classes."""
 import gc, itertools, random
-from .. import core, hist, world as W, sysgen
+from .. import core, hist, world as W, sysgen, ref
 from .c01 import random_history, fix_disagreements
 
 MODULES = ['DsdVerif.Props.C15']
@@ -42,7 +42,9 @@ def run(res, proof):
     # ---- 1. equal requests interleaved across the classes of each kind
     base_ops = {
         'dom': ['mk.dom\t%d\ta\t5\t-\t-', 'mk.dom\t%d\ta\t9\t-\t-', 'mk.dom\t%d\ta*\t-\t-\t-', 'mk.dom\t%d\t-\t5\t-\t-', 'mk.dom\t%d\ta\t-\t-\t-'],
-        'cplx': ['mk.cplx\t%d\tX\t-\th0 h1 + h0\t(.+)', 'mk.cplx\t%d\t-\t-\th0 + h0 h1\t(+).', 'mk.cplx\t%d\tX\t-\tNONE\t', 'mk.cplx\t%d\tY\t-\th0 h1 + h0\t(.+)'],
+        'cplx': ['mk.cplx\t%d\tX\t-\th0 h1 + h0\t(.+)', 'mk.cplx\t%d\t-\t-\th0 + h0 h1\t(+).', 'mk.cplx\t%d\tX\t-\tNONE\t', 'mk.cplx\t%d\tY\t-\th0 h1 + h0\t(.+)',
+                 # two copies of one strand with an asymmetric pairing, in both rotations (equal sequences, different structures)
+                 'mk.cplx\t%d\tP\t-\th0 h1 + h0 h1\t(.+.)', 'mk.cplx\t%d\tP\t-\th0 h1 + h0 h1\t.(+).'],
         'strand': ['mk.strand\t%d\tS\th0 h1', 'mk.strand\t%d\t-\th0 h1', 'mk.strand\t%d\tS\tNONE'],
     }
     pre = ['reset', 'mk.dom\t0\tp\t5\t-\t-', 'mk.dom\t0\tq\t5\t-\t-']
@@ -64,14 +66,31 @@ def run(res, proof):
             for l in combo:
                 o = hist.run_checked(iw, [l, 'names'], res, 'C15', prefix=hl)
                 hl += [l, 'names']; ho += o
-            # objects of different classes never alias
+            # objects of different classes never alias, although they compare equal (and hash equal) whenever they denote
+            # the same thing - judged independently of the canonical form the library computed: same name and length for
+            # domains, the same rotation class for complexes, the same domain list for strands
             objs = list(iw.held.values())
             for a, b in itertools.combinations(objs, 2):
-                if a is b:
+                if a is b or type(a) is type(b):
                     continue
-                if type(a) is not type(b) and getattr(a, 'name', None) == getattr(b, 'name', None) and kind != 'dom':
-                    if not (a == b) and a.canonical_form == b.canonical_form:
-                        res.violation('cross-class-equality', {'history': list(hl)}, 'equal forms compare unequal', 'compare equal')
+                same = None
+                try:
+                    if kind == 'dom' and type(a) in iw.classes['dom'] and type(b) in iw.classes['dom']:
+                        same = (a.name, a.length) == (b.name, b.length)
+                    elif kind == 'cplx' and type(a) in iw.classes['cplx'] and type(b) in iw.classes['cplx']:
+                        ra = set(ref.rotations([str(x) for x in a.sequence], list(a.structure)))
+                        same = ([str(x) for x in b.sequence] and (tuple(str(x) for x in b.sequence), tuple(b.structure)) in ra)
+                    elif kind == 'strand' and type(a) in iw.classes['strand'] and type(b) in iw.classes['strand']:
+                        same = [str(x) for x in a.sequence] == [str(x) for x in b.sequence]
+                except Exception:
+                    same = None
+                if same is None:
+                    continue
+                if same and (not (a == b) or (a != b) or hash(a) != hash(b)):
+                    res.violation('cross-class-equality:' + kind, {'history': list(hl)}, '%r (%s) and %r (%s): == is %s, hashes equal: %s' % (
+                        a, type(a).__name__, b, type(b).__name__, a == b, hash(a) == hash(b)), 'objects of different classes denoting the same thing compare equal and hash equal')
+                if not same and a == b:
+                    res.violation('cross-class-equality:' + kind, {'history': list(hl)}, '%r == %r' % (a, b), 'different things compare unequal')
             res.evaluations += 1
             res.nontriv(tuple(hl))
             lines += hl; impl += ho
